@@ -22,7 +22,7 @@ ASSUMPTIONS = ['token types for the enumerator come from the basic lexer on pref
                'ForestToPyDotVisitor is not exercised (needs pydot, not installed)']
 
 O_ACYC = gramgen.Opts(terms='tok', max_rules=4, shaping=True, templates=True, ignore=True, acyclic=True)
-O_ANY = gramgen.Opts(terms='tok', max_rules=3, shaping=True, templates=True, ignore=True, acyclic=False, max_alts=3, max_items=3, depth=1)
+O_ANY = gramgen.Opts(terms='tok', max_rules=3, shaping=True, templates=True, ignore=True, acyclic=False, max_alts=2, max_items=2, depth=1)
 
 
 class Counting(ForestVisitor):
@@ -51,9 +51,13 @@ class CountingTransformer(ForestTransformer):
         return ForestTransformer.on_cycle(self, node, path)
 
 
-def norm_unshaped(t, tokpos):
+def norm_unshaped(t, tokpos, _memo=None):
+    if _memo is None: _memo = {}
     if isinstance(t, Tree):
-        return ('N', str(t.data), tuple(norm_unshaped(c, tokpos) for c in t.children))
+        got = _memo.get(id(t))
+        if got is None:
+            got = _memo[id(t)] = ('N', str(t.data), tuple(norm_unshaped(c, tokpos, _memo) for c in t.children))
+        return got
     if isinstance(t, Token):
         return ('T', t.type, tokpos.get(t.start_pos, -1))
     return ('V', repr(t))
@@ -87,13 +91,15 @@ def check(case, ctx):
         cyclic_input = False; expected = None
         try:
             expected = bnfderiv.enum_derivs(pb.rules, types, 'start', cap=1500 if len(w) > 4 else 3000)
+            # derivations are counted by rule identity: two template instances (tp{A,B} / tp{B,B}) give equally named nodes
+            n_derivs = len(bnfderiv.enum_derivs(pb.rules, types, 'start', cap=3000, with_rule_index=True)) if expected else 0
         except gram.Cyclic:
             cyclic_input = True
             if not cyc_static:
                 raise RuntimeError('enumerator met a cycle in a statically acyclic BNF:\n%s\n%r' % (gtext, w))
         except gram.TooMany:
             ctx.label('input:too-many-derivations (skipped)'); continue
-        if cyclic_input and len(types) > 4:
+        if cyclic_input and len(types) > 3:
             ctx.label('input:cyclic and longer than 4 tokens (skipped: explicit expansion is exponential)'); continue
         if expected is not None and not expected:
             for lx, p in parsers.items():
@@ -143,9 +149,9 @@ def check(case, ctx):
                                     missing=[gram.show(x) for x in list(expected - got)[:2]], extra=[gram.show(x) for x in list(got - expected)[:2]])
                 if norm_unshaped(one, tokpos) not in expected:
                     raise Violation('resolve_ambiguity=True result is not a derivation', grammar=gtext, text=w, lexer=lx, got=gram.show(norm_unshaped(one, tokpos)))
-                if len(expected) == 1 and root.is_ambiguous:
+                if n_derivs == 1 and root.is_ambiguous:
                     raise Violation('is_ambiguous is True for a single derivation', grammar=gtext, text=w, lexer=lx, is_ambiguous=True)
-                if len(expected) > 1 and not _any_ambiguous(root):
+                if n_derivs > 1 and not _any_ambiguous(root):
                     raise Violation('no ambiguous node in a forest with several derivations', grammar=gtext, text=w, lexer=lx)
                 ctx.label('input:ambiguous' if len(expected) > 1 else 'input:single-derivation')
                 if len(expected) > 1:
@@ -254,5 +260,5 @@ def strat(o, n, max_len):
 def phases(tier):
     k = 12 if tier == 'thorough' else 1
     return [Phase('acyclic', 'hypothesis', strategy=strat(O_ACYC, 3, 8), max_examples=12000 * k),
-            Phase('any', 'hypothesis', strategy=strat(O_ANY, 3, 5), max_examples=12000 * k),
+            Phase('any', 'hypothesis', strategy=strat(O_ANY, 3, 3), max_examples=12000 * k),
             Phase('regexp-terminals-dynamic', 'hypothesis', strategy=strat(O_RE, 4, 8), max_examples=12000 * k, check=check_re)]
